@@ -14,6 +14,7 @@ import (
 	"sync/atomic"
 	"testing"
 	"time"
+	"verif/harness/internal/ev"
 
 	"github.com/ohler55/slip"
 
@@ -27,6 +28,17 @@ type CaseB struct {
 	Pkg string `json:"pkg"`
 	Fn  string `json:"fn"`
 	N   int    `json:"n"`
+	// Via: "" = the call is a form (fn args...); "funcall" / "apply" = the function object is called with the evaluated
+	// arguments through funcall or apply (ordinary functions only): the accepted counts are the same
+	Via string `json:"via,omitempty"`
+}
+
+// viasOf: the ways a function is called in part B.
+func viasOf(f fnInfo) []string {
+	if f.ordinary {
+		return []string{"", "funcall", "apply"}
+	}
+	return []string{""}
 }
 
 // arity is what a documented lambda list allows.
@@ -163,6 +175,7 @@ var deny = map[string]string{
 type fnInfo struct {
 	pkg, name string
 	kind      string
+	ordinary  bool // every argument is evaluated
 	ar        arity
 	ll        string
 }
@@ -197,7 +210,21 @@ func functions() []fnInfo {
 				if strings.HasPrefix(fi.Name, "c04f") {
 					return // left over from part A
 				}
-				fnList = append(fnList, fnInfo{pkg: p.Name, name: fi.Name, kind: string(fi.Kind), ar: docArity(fi.Doc), ll: lambdaListText(fi.Doc)})
+				info := fnInfo{pkg: p.Name, name: fi.Name, kind: string(fi.Kind), ar: docArity(fi.Doc), ll: lambdaListText(fi.Doc)}
+				// an ordinary function: every argument is evaluated (funcall and apply can call it like a form does)
+				info.ordinary = info.kind == "function" || info.kind == "built-in"
+				if obj := ev.Try(func() slip.Object { return fi.Create(nil) }); obj.Kind == ev.Value {
+					if sk, ok := obj.Val.(interface{ SkipArgEval(int) bool }); ok {
+						for i := 0; i < 6; i++ {
+							if sk.SkipArgEval(i) {
+								info.ordinary = false
+							}
+						}
+					}
+				} else {
+					info.ordinary = false
+				}
+				fnList = append(fnList, info)
 			})
 		}
 		sort.Slice(fnList, func(i, j int) bool { return fnList[i].key() < fnList[j].key() })
@@ -280,6 +307,9 @@ func runB(c CaseB) *h.Result {
 	}
 	res.NonTrivial = c.N == f.ar.min-1 || c.N == f.ar.min || (!f.ar.unbounded && (c.N == f.ar.maxPos || c.N == f.ar.maxPos+1))
 	res.Classes = append(res.Classes, "B:kind:"+f.kind, "B:outcome:"+o.Kind)
+	if c.Via != "" {
+		res.Classes = append(res.Classes, "B:via-"+c.Via)
+	}
 	if inRange {
 		res.Classes = append(res.Classes, "B:inside-documented-range")
 	} else {
@@ -298,18 +328,25 @@ func runB(c CaseB) *h.Result {
 	}
 	if inRange {
 		if o.Kind != "value" && own {
-			res.Err = fmt.Sprintf("%s:%s is documented as %s (%s) but a call with %d arguments is rejected as an argument count error: %s",
-				c.Pkg, c.Fn, f.ll, f.ar, c.N, o.Msg)
+			res.Err = fmt.Sprintf("%s:%s is documented as %s (%s) but a call %swith %d arguments is rejected as an argument count error: %s",
+				c.Pkg, c.Fn, f.ll, f.ar, viaText(c.Via), c.N, o.Msg)
 		}
 		return res
 	}
 	if o.Kind == "value" {
-		res.Err = fmt.Sprintf("%s:%s is documented as %s (%s) but a call with %d arguments is accepted: value %s", c.Pkg, c.Fn, f.ll, f.ar, c.N, o.Msg)
+		res.Err = fmt.Sprintf("%s:%s is documented as %s (%s) but a call %swith %d arguments is accepted: value %s", c.Pkg, c.Fn, f.ll, f.ar, viaText(c.Via), c.N, o.Msg)
 	}
 	if o.Kind == "fault" {
 		res.Classes = append(res.Classes, "B:rejected-by-host-fault")
 	}
 	return res
+}
+
+func viaText(via string) string {
+	if via == "" {
+		return ""
+	}
+	return "through " + via + " "
 }
 
 // excludedB names the open finding whose root cause covers the call (decided by function and count only).
@@ -520,8 +557,10 @@ func TestB(t *testing.T) {
 			continue
 		}
 		ns, _ := f.ar.counts()
-		for _, n := range ns {
-			all = append(all, CaseB{Pkg: f.pkg, Fn: f.name, N: n})
+		for _, via := range viasOf(f) {
+			for _, n := range ns {
+				all = append(all, CaseB{Pkg: f.pkg, Fn: f.name, N: n, Via: via})
+			}
 		}
 	}
 	par := 4
@@ -570,9 +609,11 @@ func TestB(t *testing.T) {
 				continue
 			}
 			ns, _ := f.ar.counts()
-			for _, n := range ns {
-				if !yield(CaseB{Pkg: f.pkg, Fn: f.name, N: n}) {
-					return
+			for _, via := range viasOf(f) {
+				for _, n := range ns {
+					if !yield(CaseB{Pkg: f.pkg, Fn: f.name, N: n, Via: via}) {
+						return
+					}
 				}
 			}
 		}
